@@ -9,8 +9,12 @@ wt=/tmp/mut_repo_$$
 git clone -q --local /repo $wt || exit 2
 git -C $wt apply "$patch" || { echo "PATCH DOES NOT APPLY"; rm -rf $wt; exit 2; }
 mkdir -p /tmp/mut_evidence /tmp/mut_replays
-export VERIF_EVIDENCE_DIR=/tmp/mut_evidence VERIF_REPLAYS_DIR=/tmp/mut_replays
+export VERIF_EVIDENCE_DIR=/tmp/mut_evidence VERIF_REPLAYS_DIR=/tmp/mut_replays VERIF_BUILD_DIR=/tmp/mut_build
+mkdir -p /tmp/mut_build
 unshare --mount bash -c "mount --bind $wt /repo && cd /verif && $*"
 rc=$?
+# cargo decides freshness by mtime: artifacts built from the patched clone would look fresh for the (older) real sources.
+# Touch the real files the patch changed so that the next real build recompiles them.
+grep "^+++ b/" "$patch" | sed 's/^+++ b\///' | while read f; do [ -f "/repo/$f" ] && touch "/repo/$f"; done
 rm -rf $wt
 exit $rc
